@@ -96,7 +96,9 @@ WAItem(m, k, y) == [m EXCEPT !.ps = IF y = None THEN DDel(m.ps, k) ELSE DPut(m.p
 WAImpl(o, m) ==
   CASE o.op = "set_type"  -> IF Variant = "orig" THEN I(WAItem(m, Ttype, Some(o.x)), "", TRUE) ELSE I([m EXCEPT !.ty = o.x], "", TRUE)
     [] o.op = "set_token" -> IF Variant = "orig" THEN I(WAItem(m, Ttoken, o.y), "", TRUE) ELSE I([m EXCEPT !.tok = o.y], "", TRUE)
-    [] o.op \in {"setitem", "setattr"} -> I(WAItem(m, o.x, o.y), "", TRUE)
+    \* Variant "lazynotify": an item store that skips the notification when nothing changes (violates the contract
+    \* on a stale view)
+    [] o.op \in {"setitem", "setattr"} -> LET m2 == WAItem(m, o.x, o.y) IN I(m2, "", Variant # "lazynotify" \/ m2 # m)
     \* the setter builds a new callback dict from the given mapping (a copy): aliasing is harmless.  Variant
     \* "aliasclear" models a setter that empties the dict it holds before reading the argument.
     [] o.op = "alias_params" ->
@@ -199,6 +201,7 @@ AHeaderEqualsView ==
                 IF ~views[act'.vw].cb THEN hdr' = hdr           \* detached copy: not a view of the header
                 ELSE IF act'.cexc # "" THEN hdr' = hdr
                 ELSE IF cv # views[act'.vw].cv THEN hdr' = w
+                ELSE IF Reasserts(K, act'.op, act', cv) THEN hdr' = w        \* a same-value store re-asserts the view
                 ELSE hdr' \in {hdr, w}
 \* a freshly read view equals the last writer's value in normal form
 ARereadEqualsView ==
